@@ -209,3 +209,35 @@ def run_swap(ctx, P):
     got = hx.reading_as_list(nm)
     ctx.observe("readings", got)
     compare_series(ctx, name, got, expected(ctx, name, kw2, cs, None))
+
+
+def run_sibling(ctx, P):
+    """two instances of ONE class with different parameters side by side in a Hexital (a fast and a slow one), the sibling
+    registered first: each follows its own definition - helper series of the two must not be confused with one another"""
+    _, _, Candle, _, Hexital = lib()
+    kind, name, kw = P["spec"][:3]
+    n = P["n"]
+    cs = mk_candles(ctx, n)
+    if P.get("posvol"):
+        ctx.assume(cs[0].volume > 0)
+        for c in cs:
+            ctx.assume(c.volume > 0)
+    sib = build(name, dict(P["sibling"]), round_value=RV)
+    me = build(name, dict(kw), round_value=RV)
+    if sib.name == me.name:
+        # the parameter that differs is not part of the generated name: the user tells them apart with a suffix
+        sib = build(name, dict(P["sibling"]), round_value=RV, name_suffix="b")
+    if not ctx.require("distinct names", sib.name != me.name, f"{sib.name!r}"):
+        return
+    order = [sib, me] if P.get("sibling_first", True) else [me, sib]
+    if P.get("feed") == "append":
+        hx = Hexital("hx", [], order)
+        for c in clone(cs):
+            hx.append(c)
+    else:
+        hx = Hexital("hx", cs, order)
+        hx.calculate()
+    for ind, k in ((me, kw), (sib, P["sibling"])):
+        got = hx.reading_as_list(ind.name)
+        ctx.observe(f"readings {ind.name}", got)
+        compare_series(ctx, f"{name}{'' if ind is me else '(sibling)'}", got, expected(ctx, name, dict(k), cs, None))
